@@ -8,6 +8,7 @@ import CffVerif.Text.BuildTag
 import CffVerif.Text.Alias
 import CffVerif.Text.Stack
 import CffVerif.Text.GenName
+import CffVerif.Text.Outputs
 
 namespace Text.Check
 
@@ -156,18 +157,16 @@ def checkFS (toks : List String) : List Div :=
   let d1 := if !known && ((f "modified") != some "-" || (f "deleted") != some "-") then [("fs.modified", id ++ " a pre-existing file was modified or deleted")] else []
   let d2 := if !known && created.any (fun p => !allowed.contains p) then [("fs.created", s!"{id} created {created} allowed {allowed}")] else []
   let d3 := if !known && id != "file:dup" && (f "exit") != some "0" then [("fs.exit", id)] else []
-  -- exactness: when every -file argument names a cff file of the package by its base name (no
-  -- duplicates), the files written are exactly OUT where given and the documented name otherwise;
-  -- without -file arguments, the documented name of every cff file of the package
+  -- exactness: the files written are exactly `Text.outputsOf` (Text/Outputs.lean: OUT where given, the
+  -- documented name otherwise; without -file every cff file) — when every -file argument names a
+  -- file of the package by its base name, without duplicates
   let parsed := flags.map fun fl => (fl.drop 6).copy.splitOn "="
   let names := parsed.map (·.headD "")
-  let simple := parsed.all (fun q => (q.length == 1 || q.length == 2) && inputs.contains (q.headD "") && q.headD "" != "plain.go") &&
+  let simple := parsed.all (fun q => (q.length == 1 || q.length == 2) && inputs.contains (q.headD "")) &&
     names.eraseDups.length == names.length
-  let expected := if flags.isEmpty then (inputs.filter (· != "plain.go")).map (fun i => "p/" ++ genNameS i)
-    else parsed.map fun q => match q with
-      | [_, o] => o
-      | [n] => "p/" ++ genNameS n
-      | _ => "?"
+  let args : List FileArg := parsed.map fun q => { name := q.headD "", out := q[1]? }
+  let cffInputs := inputs.filter (· != "plain.go")       -- the fixture's file without a directive
+  let expected := outputsOf "p" cffInputs args
   let srt := fun (l : List String) => l.mergeSort (fun a b => decide (a ≤ b))
   let d4 := if !known && id != "multi:rerun" && simple && (f "exit") == some "0" && srt created != srt expected then
       [("fs.created", s!"{id} created {created} expected exactly {expected}")] else []
